@@ -29,7 +29,7 @@ func init() {
 		},
 		Batches: tiered(144, 3840),
 		Run:     runC05,
-		Timeout: timeoutFor(8*time.Minute, 40*time.Minute),
+		Timeout: timeoutFor(3*time.Minute, 40*time.Minute),
 	})
 }
 
